@@ -85,6 +85,15 @@ def as_sym_seq(interp: Interp, st: St, x: V):
             yield s, ("ok", SymSeq(inner.length,
                                    lambda s2, i, inner=inner, sv=sv: V("tuple", [V("int", sv + i), inner.elem(s2, i)])))
         return
+    if x.tag and x.tag[0] == "pairwise":
+        for s, r in as_sym_seq(interp, st, x.tag[1]):
+            if r[0] != "ok":
+                yield s, r
+                continue
+            inner = r[1]
+            n = z3.If(inner.length >= 1, inner.length - 1, 0)
+            yield s, ("ok", SymSeq(n, lambda s2, i, inner=inner: V("tuple", [inner.elem(s2, i), inner.elem(s2, z3.simplify(i + 1))])))
+        return
     if x.tag and x.tag[0] == "reversed":
         for s, r in as_sym_seq(interp, st, x.tag[1]):
             if r[0] != "ok":
